@@ -123,6 +123,8 @@ type World struct {
 	tombs       [NCnr][NTomb]*Op
 	// MaxExp is the largest tombstone expiration used.
 	MaxExp int
+	// Bias, if set, may add weight to op kinds of the next top-level draw.
+	Bias func(add func(kind string, n int))
 	// Hooks for the property-specific model.
 	OnOp func(op Op, phase string, err error) // phase "begin" / "end"
 	// Stats
@@ -183,6 +185,9 @@ func (w *World) anyPresent() bool {
 	}
 	return false
 }
+
+// AnyPending reports whether a removal was requested and not collected yet.
+func (w *World) AnyPending() bool { return w.anyPending() }
 
 func (w *World) anyPending() bool {
 	for c := range w.Pending {
@@ -267,6 +272,17 @@ func (w *World) Draw(t *rapid.T, al Allow, inner bool) Op {
 		if al.Resync {
 			add(KResync, 2)
 		}
+	}
+	if w.Bias != nil && !inner {
+		w.Bias(func(k string, n int) {
+			switch k {
+			case KFlush, KTick, KRace:
+				if !wc {
+					return
+				}
+			}
+			add(k, n)
+		})
 	}
 	op := Op{Kind: rapid.SampledFrom(kinds).Draw(t, "kind")}
 	present := func(c, i int) bool { return w.Present[c][i] }
